@@ -528,6 +528,10 @@ class Contract:
     def inject_cancel(self, it, aw, idx) -> bool:
         return False
 
+    def cancel_awaiting_task(self, it, aw, idx) -> bool:
+        """May the task running the function be cancelled while it awaits this future?"""
+        return False
+
     # -- driver ------------------------------------------------------------------------------------
     def run(self, it: Interp) -> None:
         st = it.st
